@@ -76,6 +76,12 @@ func newScanner(r io.Reader) *scanner {
 func (s *scanner) read() rune {
 	ch, _, err := s.r.ReadRune()
 	if err != nil {
+		// the end of the input is located just after the last character
+		if s.beginToken {
+			s.startLine = s.currLine
+			s.startCol = s.currCol + 1
+			s.beginToken = false
+		}
 		return eof
 	}
 
